@@ -283,10 +283,12 @@ def generate(rng, seed, run, tier, focus='C01', xmode=False):
             if hk in ('up', 'down'):
                 arg = rng.randrange(nc)
             elif hk in ('upU', 'downU'):
-                cnt = rng.choice([0, 1, 2, 2, 3, 4, 6])
+                cnt = rng.choice([0, 1, 2, 2, 3, 4, 6, 9, 14, 25, 40])   # also many seeds at once
                 arg = [rng.randrange(nc) for _ in range(cnt)]
                 if arg and rng.random() < 0.3:
                     arg.append(arg[0])
+                if rng.random() < 0.12:
+                    arg = rng.choice(['atoms', 'coatoms', 'all'])    # a whole antichain / every concept as seeds
             else:
                 arg = 0
             ev = [kind, next_h, s, w, hk, arg, int(rng.random() < 0.4)]
@@ -684,7 +686,7 @@ class Live:
             names = list(sl.pnames(B))
             e = f.extent(B)
             i = f.intent(e)
-            got = call(lat, self.arg(names))
+            got = call(lat, iter(list(names)) if B % 5 == 4 else self.arg(names))
             rec.check('C02.lattice_call_is_member',
                       got.ok and got.value is table.get(e) and got.value.intent == sl.pnames(i),
                       lambda: f'lattice({names!r}) = {got.text()} expected member with extent {sl.onames(e)!r} rows={f.rows}')
@@ -715,7 +717,8 @@ class Live:
             ci = f.index_of(f.close_objs(A))
             want = {(sl.onames(f.concepts()[u][0]), sl.pnames(f.concepts()[u][1]))
                     for u in f.upper_covers(ci)}
-            got = call(ctx.neighbors, self.arg(names))
+            # any iterable of labels is documented: lists, tuples, one-shot iterators
+            got = call(ctx.neighbors, iter(list(names)) if k % 4 == 3 else (tuple(names) if k % 4 == 2 else self.arg(names)))
             ok = got.ok and len(got.value) == len(set(got.value)) and set(got.value) == want
             rec.check('C05.neighbors_eq_upper_covers', ok,
                       lambda: f'neighbors({names!r}) = {got.text()} model {sorted(want)!r} rows={f.rows} labels={sl.objs}')
@@ -1173,7 +1176,14 @@ class Live:
                 seeds = [seed(arg)]
                 out = call(seeds[0].upset if hk == 'up' else seeds[0].downset)
             else:
-                seeds = [seed(a) for a in arg]
+                if isinstance(arg, str):
+                    got = call(lambda: {'atoms': lambda: list(lt[0].atoms),
+                                        'coatoms': lambda: list(lt[0].supremum.lower_neighbors),
+                                        'all': lambda: list(lt[0])}[arg]())
+                    self.need(got.ok, 'lattice_iterates', lambda: f'{arg} of the lattice raised {got.text()}')
+                    seeds = got.value
+                else:
+                    seeds = [seed(a) for a in arg]
                 src = iter(list(seeds)) if as_iter else list(seeds)
                 out = call(lt[0].upset_union if hk == 'upU' else lt[0].downset_union, src)
                 if not as_iter:
